@@ -167,4 +167,13 @@ theorem o13r_of_o10m (cur : World) (op : Op) (codes : List (List Nat))
     rw [h]
   · rfl
 
+/-- C04 (`o04b`): a purchase is paid with a bucket id that names exactly one bucket; with two buckets
+    under one id the proceeds filed under `(seller, id)` overwrite or shadow a bucket of somebody
+    who is not a party to the payment. `true` = fine. -/
+def oracle04b (cur : World) (op : Op) (ok : Bool) : Bool :=
+  match op with
+  | .exec _ _ (.buy _ bid) =>
+    !(ok && decide (1 < (cur.mkt.buckets.filter (fun p => decide (p.1.2 = bid))).length))
+  | _ => true
+
 end Fuzion.Orc
